@@ -25,8 +25,13 @@ def describe():
   return type(fec.get_for_each_client_backend()).__name__
 
 
-def body_a(arg, inner, raise_inside, obs):
-  obs.append(('a-before', describe()))
+def body_a(arg, inner, raise_inside, obs, pre=0):
+  # pre 0: the thread looks its backend up first; 1: the context is the thread's FIRST backend operation;
+  # 2: it follows set_for_each_client_backend(None)
+  if pre == 0:
+    obs.append(('a-before', describe()))
+  elif pre == 2:
+    fec.set_for_each_client_backend(None)
   yield
   try:
     with fec.for_each_client_backend(arg):
@@ -80,13 +85,13 @@ def expected(a_arg, a_inner, b_arg, b_set):
   return exp
 
 
-def run_schedule(schedule, a_choice, a_inner_choice, a_raises, b_choice, b_set):
+def run_schedule(schedule, a_choice, a_inner_choice, a_raises, b_choice, b_set, a_pre=0):
   thread_model.reset()
   fec._BACKEND_CHOICE = fec.BackendChoice()     # fresh per run (the module-level object is shared between runs)
   a_arg, b_arg = ARGS[a_choice], ARGS[b_choice]
   a_inner = INNER[a_inner_choice]
   obs = []
-  gens = [body_a(a_arg, a_inner, a_raises, obs), body_b(b_arg, b_set, obs)]
+  gens = [body_a(a_arg, a_inner, a_raises, obs, a_pre), body_b(b_arg, b_set, obs)]
   alive = [True, True]
   for pick in list(schedule) + [False] * 12 + [True] * 12:
     t = 1 if pick else 0
@@ -112,7 +117,7 @@ def run_schedule(schedule, a_choice, a_inner_choice, a_raises, b_choice, b_set):
 
 
 import os
-_CFG = [int(x) for x in os.environ.get('C02_CFG', '0,0,2,0,0').split(',')]   # a_choice, a_inner_choice, b_choice, b_set, a_raises
+_CFG = ([int(x) for x in os.environ.get('C02_CFG', '0,0,2,0,0,0').split(',')] + [0])[:6]   # a_choice, a_inner_choice, b_choice, b_set, a_raises, a_pre
 
 
 def threads_scoped(schedule: List[bool]) -> bool:
@@ -120,8 +125,8 @@ def threads_scoped(schedule: List[bool]) -> bool:
   pre: len(schedule) <= 7
   post: __return__
   """
-  a, inner, b, bset, raises = _CFG
-  return run_schedule(schedule, a, inner, bool(raises), b, bool(bset))
+  a, inner, b, bset, raises, pre = _CFG
+  return run_schedule(schedule, a, inner, bool(raises), b, bool(bset), pre)
 
 
 def threads_reach(schedule: List[bool]) -> bool:
@@ -129,5 +134,5 @@ def threads_reach(schedule: List[bool]) -> bool:
   pre: len(schedule) <= 7
   post: not __return__
   """
-  a, inner, b, bset, raises = _CFG
-  return run_schedule(schedule, a, inner, bool(raises), b, bool(bset))
+  a, inner, b, bset, raises, pre = _CFG
+  return run_schedule(schedule, a, inner, bool(raises), b, bool(bset), pre)
